@@ -1,6 +1,7 @@
 import Qentem.Driver.Proto
 import Qentem.Model.HashTable
 import Qentem.Model.HashTableSpec
+import Qentem.Model.HashLedger
 /-!
 Driver of the C13 models.  `Main.lean` is stateless per line, so one line carries a whole operation
 sequence and the answer carries one record per step, joined by `|`.
@@ -8,6 +9,8 @@ sequence and the answer carries one record per step, joined by `|`.
   htrun  <A|L> <ops>   layout model (`Model/HashTable.lean`), record = `out#size cap heads#items`
   htspec <A|L> <ops>   slot specification (`Model/HashTableSpec.lean`), record = `out#cap#slots`
   hthash <units>       `StringUtils::Hash` for `char` keys
+  htled  <A|L> <ops>   allocation trace of one table lifetime (`Model/HashLedger.lean`):
+                       `a<id>:<bytes>` / `f<id>` joined by `,` (same syntax as harness/ledger.hpp)
 
 `A` = HArray (values are numbers), `L` = HList (`V = Unit`, printed as 0).
 `<ops>` = operations joined by `;` (or `-` for none), fields joined by `/`, keys are unit lists
@@ -17,6 +20,7 @@ sequence and the answer carries one record per step, joined by `|`.
   C compress     K clear   T reset   S/0|1 sort     Y copy       M move
   P/<k=v&k=v..>/<k&k..> merge with a fresh table built by those inserts then those removals
   (`Q/..` the same through the moving `operator+=`; identical for the destination)
+  W self-merge `h += h` (a no-op since the repair)
 -/
 namespace Qentem.Driver.HashTable
 open Qentem.Driver Qentem.HashTable
@@ -59,6 +63,7 @@ def parseOp {V : Type} (io : ValIO V) (s : String) : Option (Op V) :=
   | ["M"] => some .move
   | ["P", ins, rem] => do let ins ← parsePairs io ins; let rem ← parseKeys rem; pure (.merge ins rem)
   | ["Q", ins, rem] => do let ins ← parsePairs io ins; let rem ← parseKeys rem; pure (.merge ins rem)
+  | ["W"] => some .selfMerge
   | _ => none
 
 def parseOps {V : Type} (io : ValIO V) (s : String) : Option (List (Op V)) :=
@@ -111,8 +116,57 @@ def handleKind {V : Type} [Inhabited V] (io : ValIO V) (op : String) (ops : Stri
     else if op == "htspec" then joinOr "|" (runSpec io Spec.empty l)
     else "bad-op"
 
+/-! ### allocation ledger (C16) -/
+open Qentem.HashLedger in
+def parseLOp (s : String) : Option LOp :=
+  match s.splitOn "/" with
+  | ["I", k, v] => do let k ← parseNats k; let v ← v.toNat?; pure (.insert k v)
+  | ["G", k] => do let k ← parseNats k; pure (.get k)
+  | ["A", k, v] => do let k ← parseNats k; let v ← v.toNat?; pure (.assign k v)
+  | ["L", k] => do let k ← parseNats k; pure (.lookup k)
+  | ["X", i] => do let i ← i.toNat?; pure (.lookupIdx i)
+  | ["R", k] => do let k ← parseNats k; pure (.remove k)
+  | ["D", i] => do let i ← i.toNat?; pure (.removeIdx i)
+  | ["N", a, b] => do let a ← parseNats a; let b ← parseNats b; pure (.rename a b)
+  | ["V", n] => do let n ← n.toNat?; pure (.reserve n)
+  | ["Z", n] => do let n ← n.toNat?; pure (.resize n)
+  | ["E", n] => do let n ← n.toNat?; pure (.expect n)
+  | ["C"] => some .compress
+  | ["K"] => some .clear
+  | ["T"] => some .reset
+  | ["S", a] => do let a ← parseBool a; pure (.sort a)
+  | ["Y"] => some .copy
+  | ["M"] => some .move
+  | ["P", ins, rem] => do let ins ← parsePairs natIO ins; let rem ← parseKeys rem; pure (.merge false ins rem)
+  | ["Q", ins, rem] => do let ins ← parsePairs natIO ins; let rem ← parseKeys rem; pure (.merge true ins rem)
+  | ["W"] => some .selfMerge
+  | _ => none
+
+def showEv : Qentem.Ledger.Ev → String
+  | .alloc i s => "a" ++ toString i ++ ":" ++ toString s
+  | .free i => "f" ++ toString i
+  | .touch i => "t" ++ toString i
+
+/-- bytes owned by the value the harness makes for id `n`: "v" ++ decimal ++ 30 pad bytes ++ NUL -/
+def valBytes (n : Nat) : Nat := 32 + (toString n).length
+
+def ledCfg (kind : String) : Option Qentem.HashLedger.Cfg :=
+  if kind == "A" then some ⟨true, 44, valBytes, Hash.ordChar⟩
+  else if kind == "L" then some ⟨false, 28, valBytes, Hash.ordChar⟩
+  else none
+
+def handleLed (kind ops : String) : String :=
+  match ledCfg kind with
+  | none => "bad-op"
+  | some cfg =>
+    let l := if ops == "-" then some [] else (ops.splitOn ";").mapM parseLOp
+    match l with
+    | none => "bad-op"
+    | some l => joinOr "," ((Qentem.HashLedger.lifetime cfg l).map showEv)
+
 def handle (op : String) (args : List String) : String :=
   match op, args with
+  | "htled", [kind, ops] => handleLed kind ops
   | "hthash", [u] =>
     match parseNats u with
     | some k => toString (Hash.hashChar k)
